@@ -170,7 +170,7 @@ class Lab:
                 t = r.choice([x for x in range(1, 255) if x not in (0x1f, 0xff) and x not in tags])
             # the LAST field of a struct may be a tagged bmp field without length prefix whose encoding takes "all the rest"
             # (BCD number, text): written as the bare number followed by the payload — possibly by nothing (0, empty text)
-            greedy_last = (not tlv) and j == n_tagged - 1 and r.random() < 0.2
+            greedy_last = (not tlv) and j == n_tagged - 1 and r.random() < 0.2 and not self.tag_heavy   # (C13's any-order law is not claimed for such a field)
             rt, tj, ln, enc, exact = self.field_type(depth, False, greedy_last, "tlv" if tlv else "bmp")
             if not tlv and ln == "empty" and not (tj["k"] == "int" and enc in ("dflt", "be")) and not (greedy_last and tj["k"] in ("int", "str")):
                 ln = "tlv"
